@@ -124,42 +124,7 @@ class C09(H.Oracle):
         check_image(ctx, bytes(disk.data))
 
     def on_end(self, ctx):
-        """After the last restart: modify one file that has a Joliet name in place (same number of sectors) on the image
-        as it lies on the disk, then decode the Joliet tree again - its record must follow (length, shared extent)."""
-        import io
-        from ..disk import SimFile
-        from ..driver import blob_data
-        m = ctx.model
-        disk = ctx.last_disk
-        if disk is None or m.hybrid or m.eltorito or m.rr_moved:
-            return
-        r = ctx.world.rng('c09modify')
-        cands = []
-        for p, n in m.iter_ns('iso'):
-            if n.kind == 'file' and isinstance(n.blob, int) and not n.noinode and m.blobs[n.blob].length > 0:
-                if any(ns == 'joliet' for ns, _ in m.names_of_blob(n.blob)):
-                    cands.append((p, n))
-        if not cands or r.random() < 0.4:
-            return
-        p, n = r.choice(sorted(cands, key=lambda x: x[0]))
-        old = m.blobs[n.blob].length
-        nsec = (old + 2047) // 2048
-        newlen = r.choice((max(1, (nsec - 1) * 2048 + 1), nsec * 2048, max(1, old - 1), min(nsec * 2048, old + 1)))
-        if (newlen + 2047) // 2048 != nsec:
-            return
-        newblob = 950000 + r.randrange(1000)
-        iso = ctx.d.pm.PyCdlib()
-        try:
-            iso.open_fp(SimFile(disk, 'r+b'))
-            kw = {'rr_name': n.rr} if m.rr and n.rr else {}
-            iso.modify_file_in_place(io.BytesIO(blob_data(M.Blob(newblob, newlen))), newlen, p, **kw)
-            iso.close()
-        except Exception as e:      # whether the call is accepted is C17's business
-            ctx.stats['modify_not_done:%s' % type(e).__name__] += 1
-            return
-        ctx.probes['modified_in_place_then_decoded'] += 1
-        m.apply({'op': 'modify', 'iso': p, 'blob': newblob, 'len': newlen})
-        check_image(ctx, bytes(disk.data))
+        H.inplace_epilogue(ctx, 'joliet', check_image)
 
     def on_doomed(self, ctx, op, out):
         if out.ok:
